@@ -175,6 +175,23 @@ func RunC14Child(traceFile, mode string) string {
 		rewrite := "n/a"
 		if len(kinds) == 1 && lastOK {
 			d.Poke(0, core.PatternBytes(t.Seed^0xb007, 446))
+			if kinds["mbr"] {
+				// the CHS address fields as other partitioning tools fill them in (cylinder bits in the sector byte,
+				// the "beyond the CHS limit" marker fe ff ff): they are part of the table that was read
+				chs := core.PatternBytes(t.Seed^0xc45, 24)
+				for e := int64(0); e < 4; e++ {
+					ent := d.Peek(446+16*e, 16)
+					if ent[4] == 0 {
+						continue
+					}
+					d.Poke(446+16*e+1, chs[e*6:e*6+3])
+					if e%2 == 0 {
+						d.Poke(446+16*e+5, []byte{0xfe, 0xff, 0xff})
+					} else {
+						d.Poke(446+16*e+5, chs[e*6+3:e*6+6])
+					}
+				}
+			}
 			before := canonHash(d, 0, size)
 			tb, rerr := partition.Read(d, int(lss), int(lss))
 			if rerr != nil {
